@@ -58,7 +58,7 @@ def run_render(out, pid, focus, tier, nquick, nthorough, max_nodes=6, opts=None,
 # ---------------------------------------------------------------------------------------
 # classifiers for known findings: computed from the SHAPE of the witness document, so that a
 # failing document that does not have the shape is still a new VIOLATION.
-DEFAULTS = {"fill": "black", "fill-rule": "nonzero", "fill-opacity": 0, "clip-rule": "nonzero",
+DEFAULTS = {"display": "inline", "fill": "black", "fill-rule": "nonzero", "fill-opacity": 0, "clip-rule": "nonzero",
             "stroke": "none", "stroke-width": 1, "stroke-opacity": 0, "stroke-linecap": "butt",
             "stroke-linejoin": "miter", "stroke-miterlimit": 4, "stroke-dasharray": [],
             "stroke-dashoffset": 0}
